@@ -11,7 +11,7 @@ EXTENDS RevTree, TraceLib
 
 TwoReps == {1, 2}
 NoChains == {}
-TraceCfgs == {[lvl |-> "tree", ac |-> TRUE, lim |-> 0, gv |-> <<1>>]}
+TraceCfgs == {[lvl |-> "tree", ac |-> TRUE, lim |-> 0, gv |-> <<1>>, n |-> 1]}
 VARIABLE l
 tvars == <<vars, l>>
 
@@ -43,7 +43,7 @@ Reset ==
   /\ tree' = [i \in Reps |-> EmptyTree] /\ mem' = [i \in Reps |-> EmptyTree]
   /\ cur' = [i \in Reps |-> Nil] /\ flags' = [i \in Reps |-> NoFlags] /\ win' = [i \in Reps |-> NoWin]
   /\ wb' = [i \in Reps |-> Nil]
-  /\ cfg' = [lvl |-> T.lvl, ac |-> T.ac, lim |-> T.lim, gv |-> T.gv]
+  /\ cfg' = [lvl |-> T.lvl, ac |-> T.ac, lim |-> T.lim, gv |-> T.gv, n |-> T.nrep]
   /\ btok' = [r \in Rev |-> Unk] /\ upar' = [r \in Rev |-> Unk] /\ udel' = [r \in Rev |-> "?"]
   /\ cons' = TRUE /\ pruned' = FALSE /\ acc' = [i \in Reps |-> {}] /\ fed' = [i \in Reps |-> <<>>]
   /\ pre' = NoPre /\ hist' = <<>>
